@@ -17,6 +17,7 @@ PLAN = {
     "C11": {"quick": ["c11_size_law_roundtrip"], "thorough": ["c11_size_law_roundtrip", "c08_decode_any_bytes"]},
     "C12": {"quick": ["c12_aggregated_iter_party_major"], "thorough": ["c12_aggregated_iter_party_major", "c12_one_history_3_1_4"]},
     "C16": {"quick": ["c16_twin_bookkeeping"], "thorough": ["c16_twin_bookkeeping"]},
+    "C17": {"quick": ["c17_verify_capacity_threshold_small"], "thorough": ["c17_verify_capacity_threshold_small"]},
 }
 BOUNDS = {
     "c08_ipp_scalars_any_lengths_quick": "|L|,|R| in 0..=2, claimed n in 0..=5 (case split inside one CBMC run), points concrete non-identity; InnerProductProof::verification_scalars returns Ok/Err without panic, Ok implies |L| = |R|, n = 2^|L| and result lengths |L|, |L|, n",
@@ -25,6 +26,7 @@ BOUNDS = {
     "c11_size_law_roundtrip": "k in 0..=3 rounds: to_bytes().len() = 11P + 5S + 16 + 2kP on the unit group (P = S = 2); decode(encode) re-encodes to identical bytes",
     "c12_aggregated_iter_party_major": "symbolic n in 0..=4, m in 0..=2 (no case split): G(n,m) / H(n,m) equal the party-major flattening of share(j).G(n)",
     "c12_one_history_3_1_4": "one concrete capacity history new(3,2); increase(1); increase(4) equals new(4,2) (sizing run; the 250-arm symbolic version is out of reach)",
+    "c17_verify_capacity_threshold_small": "first-phase gates n1 in 0..=2, second-phase gates n2 in 0..=1 (allocated by a randomized closure), real BulletproofGens of capacity 0..=2 (18 arms, case split in one CBMC run): Verifier::verify on a well-formed proof whose T_1 is the identity returns InvalidGeneratorsLength iff capacity < max(1, next_power_of_two(n1+n2)) and VerificationError (from the T_1 check that follows the capacity check) otherwise; no panic.  The 72-arm version, batch_verify and the prover side end without verdict (out of memory)",
     "c16_twin_bookkeeping": "nondeterministic sequence of <= 3 calls out of {commit, allocate, allocate(None), allocate_multiplier, allocate_multiplier(None), multiply, constrain} on Prover<UnitA> and Verifier<UnitA>: equal handles and multipliers_len after every call, Left(i)/Right(i) pairing, MissingAssignment without moving a counter (first phase only)",
 }
 
